@@ -131,6 +131,14 @@ class Check(PropertyCheck):
                 s2, ns2 = tick()
                 add(st("F", c, s, ns), st("F", c, s2, ns2), "K", "touch")
                 add(st("F", c, s, ns), st("F", c, s, (ns + 1) % 1000000000), "K", "touch-nsec")
+                # whole-second stamps (archive extraction, `touch -d @N`, 1-second file systems) against sub-second ones of the
+                # SAME second, in both directions, touch-only and with a same-size rewrite
+                nz = 1 + rng.below(999999999)
+                add(st("F", c, s, 0), st("F", c, s, nz), "K", "touch-nsec-zero")
+                add(st("F", c, s, nz), st("F", c, s, 0), "K", "touch-nsec-zero")
+                if c2 is not None:
+                    add(st("F", c, s, 0), st("F", c2, s, nz), "K", "content+nsec-zero")
+                    add(st("F", c, s, nz), st("F", c2, s, 0), "K", "content+nsec-zero")
                 add(st("F", c, s, ns), st("F", c, s, ns), "R", "inode-replaced")
                 add(st("F", c, s, ns), st("F", c + content(1 + rng.below(70)), s, ns), rng.choice("KR"), "size")
                 add(st("F", c, s, ns), st("F", c, s, ns), "=", "untouched")
